@@ -8,6 +8,23 @@ pub type E = u8;
 pub const E1: Error<E> = Error::Other(1);
 pub const E2: Error<E> = Error::Other(2);
 pub const E3: Error<E> = Error::Other(3);
+/// error value of the single-error alphabets, by event position: `Other(1)` at even positions, the
+/// crate's own `FromNone` at odd ones (both variants meet every context without a larger alphabet)
+pub fn err_at(k: usize) -> Error<E> {
+    if k % 2 == 0 {
+        E1
+    } else {
+        Error::FromNone
+    }
+}
+/// error code used by the event alphabets: 0 is the crate's own `Error::FromNone`, k > 0 is `Error::Other(k)`
+pub fn err_val(c: u8) -> Error<E> {
+    if c == 0 {
+        Error::FromNone
+    } else {
+        Error::Other(c)
+    }
+}
 
 pub fn err_code(e: &Error<E>) -> u32 {
     match e {
